@@ -450,9 +450,28 @@ pub fn spaces(tier: Tier) -> Vec<Space> {
     {
         let e = env.clone();
         let maxlen: u64 = if tier.is_thorough() { 4200 } else { 1100 };
-        v.push(Space::new("scriptlen-sweep", (maxlen + 1) * 2 * 2, move |case, acc| {
-            let c = coords(case.idx, &[maxlen + 1, 2, 2]);
-            let s = script_of_len(c[0] as usize, c[1]);
+        v.push(Space::new("scriptlen-sweep", (maxlen + 1) * 4 * 2, move |case, acc| {
+            let c = coords(case.idx, &[maxlen + 1, 4, 2]);
+            let s = if c[1] < 2 {
+                script_of_len(c[0] as usize, c[1])
+            } else {
+                // one push through a WIDER push opcode than its payload needs (PUSHDATA2 / PUSHDATA4), exactly filling the length
+                let (hdr, op) = if c[1] == 2 { (3usize, 0x4du8) } else { (5, 0x4e) };
+                let len = c[0] as usize;
+                if len < hdr {
+                    vec![0x61; len]
+                } else {
+                    let n = len - hdr;
+                    let mut v = vec![op];
+                    if op == 0x4d {
+                        v.extend_from_slice(&(n as u16).to_le_bytes());
+                    } else {
+                        v.extend_from_slice(&(n as u32).to_le_bytes());
+                    }
+                    v.extend((0..n).map(|i| (i * 11 + 7) as u8));
+                    v
+                }
+            };
             let mut tx = RTx { version: 2, locktime: 0, inputs: vec![simple_in(0)], outputs: vec![simple_out(0)] };
             if c[2] == 0 {
                 tx.inputs[0].script = s;
@@ -520,7 +539,24 @@ pub fn spaces(tier: Tier) -> Vec<Space> {
     // S4: coinbase-outpoint inputs in coinbase and non-coinbase transactions
     {
         let e = env.clone();
-        let blobs: Vec<Vec<u8>> = vec![vec![], vec![0x01], vec![0xff; 5], vec![0x4e, 0xff, 0xff, 0xff, 0xff], (0..100u8).collect(), vec![0x51], vec![0x63]];
+        let mut blobs: Vec<Vec<u8>> = vec![vec![], vec![0x01], vec![0xff; 5], vec![0x4e, 0xff, 0xff, 0xff, 0xff], (0..100u8).collect(), vec![0x51], vec![0x63]];
+        // coinbase scripts that tokenise as ordinary script (height push, OP_RETURN followed by a short final push, text tags),
+        // and every byte string of length 1 and 2: whatever the bytes are, they must come back unchanged
+        blobs.push(hex::decode("0340e20b6a2f506f6f6c2f").unwrap());
+        blobs.push(hex::decode("03a0860100").unwrap());
+        blobs.push(hex::decode("006a4848454c4c4f").unwrap());
+        blobs.push(hex::decode("6a05aabb").unwrap());
+        blobs.push(hex::decode("4c02aabb4d0100cc").unwrap());
+        blobs.push(hex::decode("63516752680000").unwrap());
+        for a in 0..=255u8 {
+            blobs.push(vec![a]);
+        }
+        for a in 0..=255u8 {
+            for b in [0x00u8, 0x01, 0x02, 0x4b, 0x4c, 0x51, 0x63, 0x67, 0x68, 0x6a, 0xaa, 0xff] {
+                blobs.push(vec![a, b]);
+                blobs.push(vec![0x6a, a, b]);
+            }
+        }
         let nb = blobs.len() as u64;
         v.push(Space::new("coinbase", nb * 4, move |case, acc| {
             let c = coords(case.idx, &[nb, 4]);
